@@ -3,7 +3,7 @@
 // c37_addrman: generated operation histories (Add batches from a small colliding address/source pool over IPv4/IPv6/Tor v3/I2P/
 //   CJDNS, Good, Attempt, Connected, SetServices, SelectTriedCollision + ResolveCollisions with mock-time jumps, Select, GetAddr,
 //   serialize -> reload with the same or a different asmap mid-history, and a "hammer" scenario that drives one address towards
-//   the 8-reference limit). One quarter of the cases run the manager with consistency checks on every call (ratio 1: a failed
+//   the 8-reference limit). One eighth of the cases run the manager with consistency checks on every call (ratio 1: a failed
 //   internal check aborts and is reported by the driver); the others (longer, denser histories) evaluate the internal check at
 //   every check point and at the end through a probe reload (the loader runs CheckAddrman and refuses inconsistent state).
 // Own oracle, computed from the public table dump GetEntries() at check points (no friend access needed):
@@ -225,7 +225,7 @@ struct World {
     void op_add()
     {
         size_t n = 1 + s.index(8);
-        if (s.chance(40)) n = 20 + s.index(40);
+        if (s.chance(80)) n = 20 + s.index(60);
         std::vector<CAddress> v;
         for (size_t i = 0; i < n; ++i) {
             CService svc = gen_service();
@@ -243,9 +243,10 @@ struct World {
     }
     void op_good_many()
     {
-        unsigned k = 8 + s.range<unsigned>(0, 40);
-        for (unsigned i = 0; i < k && !recent.empty(); ++i) {
-            const CService& a = recent[(i * 7 + s.index(recent.size())) % recent.size()];
+        unsigned k = 16 + s.range<unsigned>(0, 80);
+        size_t start = s.index(std::max<size_t>(recent.size(), 1));
+        for (unsigned i = 0; i < k && i < recent.size(); ++i) {
+            const CService a = recent[(start + i) % recent.size()];
             bool moved = am->Good(a, t(now));
             if (moved) n_good_moved++;
             else if (auto p = am->FindAddressEntry(CAddress(a, NODE_NONE)); p.has_value() && !p->tried) { n_collisions_seen++; st.cls("good-tried-collision"); }
@@ -415,19 +416,19 @@ struct World {
 VERIF_TARGET(c37_addrman, init_c37, 8, 900,
              "operation histories over a small colliding pool of IPv4/IPv6/Tor/I2P/CJDNS addresses and sources (Add batches with boundary timestamps and "
              "penalties, Good, Attempt, Connected, SetServices, collision select/resolve with mock-time jumps, Select, GetAddr, serialize->reload with same "
-             "or other asmap, reference-count hammer); internal consistency check on every call (1/4 of cases) or at check points via probe reload; non-trivial = >=12 ops, both tables populated, >=1 same-asmap round "
+             "or other asmap, reference-count hammer); internal consistency check on every call (1/8 of cases) or at check points via probe reload; non-trivial = >=12 ops, both tables populated, >=1 same-asmap round "
              "trip of a non-empty manager and (an address with >=2 new-table references or a tried collision seen); distinct = op sequence + table sizes")
 {
     World w(s, st);
     w.asmap = s.boolean();
-    w.ratio = s.range<unsigned>(0, 3) == 1 ? 1 : 0;
+    w.ratio = s.range<unsigned>(0, 7) == 1 ? 1 : 0;
     w.focus_kind = s.pick<unsigned>({0, 0, 1, 2, 4, 3});
     w.focus_group = s.range<unsigned>(0, 3);
     w.ngm = std::make_unique<NetGroupManager>(make_ngm(w.asmap));
     w.am = std::make_unique<AddrMan>(*w.ngm, /*deterministic=*/true, /*consistency_check_ratio=*/w.ratio);
     w.set_now();
     st.cls(w.ratio ? "internal-check-every-call" : "internal-check-at-checkpoints");
-    const unsigned max_ops = w.ratio ? 120 : 400;
+    const unsigned max_ops = w.ratio ? 60 : 400;
     st.cls(w.asmap && g_asmap_ok ? "asmap" : "no-asmap");
     unsigned max_mult = 0;
     bool hammered = false;
